@@ -8,6 +8,7 @@
 #  include <chrono>
 #endif
 #include <cstdlib>
+#include <cstring>
 #include <limits>
 #include <map>
 #include <mutex>
@@ -312,6 +313,9 @@ private:
 
       using namespace detail;
       convert_to_sandbox_equivalent_t<T_Ret, T_Sbx> ret;
+      // The whole object goes to the sandbox: a struct's padding must not carry
+      // what the application's stack held
+      std::memset(&ret, 0, sizeof(ret));
       convert_type<T_Sbx,
                    adjust_type_direction::TO_SANDBOX,
                    adjust_type_context::SANDBOX>(
